@@ -40,6 +40,9 @@ type Core struct {
 	Fault func(w Write) bool
 	// GetGate, when set, is called before every Get (outside the lock); used to park a reader.
 	GetGate func(key string)
+	// GetGateAfter, when set, is called after every Get has read its value (outside the lock): the caller
+	// is parked holding a possibly stale answer.
+	GetGateAfter func(key string, found bool)
 }
 
 func NewCore() *Core { return &Core{m: map[string][]byte{}} }
@@ -123,8 +126,11 @@ func (p *Plain) Get(_ context.Context, k ds.Key) ([]byte, error) {
 		g(k.String())
 	}
 	p.C.mu.Lock()
-	defer p.C.mu.Unlock()
 	v, ok := p.C.m[k.String()]
+	p.C.mu.Unlock()
+	if g := p.C.GetGateAfter; g != nil {
+		g(k.String(), ok)
+	}
 	if !ok {
 		return nil, ds.ErrNotFound
 	}
